@@ -179,7 +179,7 @@ TraceReset ==
             \cup (IF "C12" \in W THEN C12Exact(d, cfg, gen) ELSE {})
             \cup (IF "C18" \in W THEN C18Run(d, cfg, gen) ELSE {})
             \cup (IF "C16" \in W THEN C16Fault(cfg, gen) ELSE {})
-            \cup (IF "C13" \in W THEN C13Run(cfg, gen) ELSE {})
+            \cup (IF "C13" \in W THEN C13Run(d, cfg, gen) ELSE {})
             \cup (IF "C02" \in W THEN C02Of(sd) ELSE {})
             \cup (IF "C10" \in W THEN C10Of(sd) ELSE {})
             \cup (IF "C11" \in W THEN {[x EXCEPT !.sig = x.c \o " " \o @, !.c = "C11.only_addressed"] : x \in sd} ELSE {})
